@@ -267,3 +267,8 @@ Print Assumptions C10_list_after_crash_monitor_sound.
 Theorem C10_list_race_monitor_sound : forall lists missing, check_list_race lists missing = 0%Z -> missing = 0%Z.
 Proof. exact check_list_race_sound. Qed.
 Print Assumptions C10_list_race_monitor_sound.
+
+Theorem C10_ctx_store_monitor_sound : forall ts, check_ctx_store ts = 0%Z ->
+  forall r l, In (r, l) ts -> (r = 0%Z /\ l = 1%Z) \/ (r <> 0%Z /\ l = 0%Z).
+Proof. exact check_ctx_store_sound. Qed.
+Print Assumptions C10_ctx_store_monitor_sound.
